@@ -7,25 +7,66 @@
    length) from the state in which connect() has returned, for producers running the handler
    scripts P and the application issuing the calls C.  `atomic = false` is the thread
    granularity (every access its own step), `atomic = true` the asyncio granularity.
-   `v` says which source text is modelled: `pinned` is the source as it stands;
-   final_wakes_input v = true: `__disconnect_final` also sets input_event;
-   recheck_before_raise v = true: receive() re-tests the buffer before raising out of the
-   connected wait / because `connected` is False (`repaired`, `repaired_all`).  `mreach v (init P C) c`: c is reachable
-   by single-access steps; every run of either granularity ends in such a state. *)
+   `v` says which source text is modelled: `repaired_all` is the source as it stands
+   (final_wakes_input: `__disconnect_final` also sets input_event, commit 748d97f;
+   recheck_before_raise: receive() re-tests the buffer before raising out of the connected
+   wait / because `connected` is False, commit fee3be8); `pinned` is the source before those
+   two commits.  `mreach v (init P C) c`: c is reachable by single-access steps; every run of
+   either granularity ends in such a state (C19_runs_are_reachable). *)
 From VT Require Import Base.PyVal Simple.SimpleClient Simple.SimpleProofs.
 Local Open Scope nat_scope.
 
-Theorem C19_runs_are_reachable : forall v atomic P C sched,
-  mreach v (init P C) (run v atomic (init P C) sched).
-Proof. exact runs_are_reachable. Qed.
-Print Assumptions C19_runs_are_reachable.
+(* ===================================================================================== *)
+(* HEADLINE: the source as it stands (fix commits 748d97f and fee3be8 = `repaired_all`).    *)
+(* harness/props/c19.py runs the model with this variant only.                             *)
+(* ===================================================================================== *)
 
-(* no loss, no duplication, no reordering: returned events ++ buffer = arrived events *)
+(* no loss, no duplication, no reordering: returned events ++ buffer = arrived events
+   (stated for every variant, in particular `repaired_all`) *)
 Theorem C19_fifo : forall v atomic P C sched,
   let c := run v atomic (init P C) sched in
   returned (outs (sh c)) ++ buf (sh c) = arrived (sh c).
 Proof. exact fifo_all_schedules. Qed.
 Print Assumptions C19_fifo.
+
+(* TimeoutError only while no event is available: the timer raises only out of the input
+   wait, with the flag clear and every buffered item still being handed off; the application
+   task raises TimeoutError only right after a buffer test that found it empty *)
+Theorem C19_timeout_only_if_empty : forall P C c c' l, mreach repaired_all (init P C) c ->
+  (tstep repaired_all c = Some (c', l) -> In (LRaise TimeoutError) l ->
+     pc c = RIW WBlocked /\ iev (sh c) = false /\
+     List.length (buf (sh c)) <= count mid_handoff (prods c)) /\
+  (cstep repaired_all c = Some (c', l) -> In (LRaise TimeoutError) l ->
+     buf (sh c) = [] /\ hd LDone l = LBufTest false).
+Proof. exact timeout_only_if_empty_repaired. Qed.
+Print Assumptions C19_timeout_only_if_empty.
+
+(* DisconnectedError only once the connection has ended for good; receive() raises it only
+   right after finding the buffer empty (the events received before have been returned) *)
+Theorem C19_disconnected_after_drain : forall P C c c' l, mreach repaired_all (init P C) c ->
+  cstep repaired_all c = Some (c', l) -> In (LRaise DisconnectedError) l ->
+  ended (sh c) = true /\
+  (recv_pc (pc c) = true -> buf (sh c) = [] /\ hd LDone l = LBufTest false) /\
+  (recv_pc (pc c) = false -> conn (sh c) = false).
+Proof. exact disconnected_after_drain_repaired. Qed.
+Print Assumptions C19_disconnected_after_drain.
+
+(* once the connection has ended for good, every pending and every later call terminates
+   under any schedule giving the application task enough turns (every fair one) *)
+Theorem C19_no_hang : forall P C c sched, mreach repaired_all (init P C) c -> after_final c ->
+  7 * List.length (cscript c) <= turns sched ->
+  pc (run repaired_all false c sched) = CDone.
+Proof. exact no_hang. Qed.
+Print Assumptions C19_no_hang.
+
+(* ===================================================================================== *)
+(* GENERAL: statements that hold for every variant of the source (used by the headline)    *)
+(* ===================================================================================== *)
+
+Theorem C19_runs_are_reachable : forall v atomic P C sched,
+  mreach v (init P C) (run v atomic (init P C) sched).
+Proof. exact runs_are_reachable. Qed.
+Print Assumptions C19_runs_are_reachable.
 
 (* pop(0) never meets an empty buffer; no call ever ends in IndexError *)
 Theorem C19_pop_never_empty : forall v P C c, mreach v (init P C) c ->
@@ -35,13 +76,13 @@ Print Assumptions C19_pop_never_empty.
 
 (* a timeout fires only while the awaited flag is clear; the timeout of input_event.wait only
    while every buffered item is still being handed off (appended, not yet signalled) *)
-Theorem C19_timeout_only_if_empty : forall v P C c c' l, mreach v (init P C) c ->
+Theorem C19_timeout_enabled_only_if_clear : forall v P C c c' l, mreach v (init P C) c ->
   tstep v c = Some (c', l) ->
   (pc c = RCW WBlocked /\ cev (sh c) = false) \/
   (pc c = RIW WBlocked /\ iev (sh c) = false /\
    List.length (buf (sh c)) <= count mid_handoff (prods c)).
 Proof. exact timeout_only_if_empty. Qed.
-Print Assumptions C19_timeout_only_if_empty.
+Print Assumptions C19_timeout_enabled_only_if_clear.
 
 Theorem C19_timeout_input_wait_buffer_empty : forall v P C c c' l, mreach v (init P C) c ->
   tstep v c = Some (c', l) -> pc c = RIW WBlocked -> existsb mid_handoff (prods c) = false ->
@@ -49,70 +90,13 @@ Theorem C19_timeout_input_wait_buffer_empty : forall v P C c c' l, mreach v (ini
 Proof. exact timeout_input_wait_buffer_empty. Qed.
 Print Assumptions C19_timeout_input_wait_buffer_empty.
 
-(* ... but the analogous statement for connected_event.wait is false at thread granularity *)
-Theorem C19_timeout_connected_wait_refuted :
-  exists P C sched, forallb lifecycle P = true /\
-    let c := run pinned false (init P C) sched in
-    pc c = RCW WBlocked /\ buf (sh c) = [item_a] /\ existsb mid_handoff (prods c) = false /\
-    exists c', tstep pinned c = Some (c', [LTimeout CE; LRaise TimeoutError]) /\
-               outs (sh c') = [Raised TimeoutError] /\ buf (sh c') = [item_a].
-Proof. exact timeout_connected_wait_refuted. Qed.
-Print Assumptions C19_timeout_connected_wait_refuted.
-
 (* DisconnectedError only after a final disconnect has started, at a step that reads
    `connected` as False (unless the source re-tests the buffer in between) *)
-Theorem C19_disconnected_after_drain : forall v P C c c' l, mreach v (init P C) c ->
+Theorem C19_disconnected_only_after_final : forall v P C c c' l, mreach v (init P C) c ->
   cstep v c = Some (c', l) -> In (LRaise DisconnectedError) l ->
   ended (sh c) = true /\ (recheck_before_raise v = false -> conn (sh c) = false).
 Proof. exact disconnected_only_after_final. Qed.
-Print Assumptions C19_disconnected_after_drain.
-
-(* ... but not necessarily after the buffer has been drained (thread granularity) *)
-Theorem C19_disconnected_while_buffered_refuted :
-  exists P C sched, forallb lifecycle P = true /\
-    let c := run pinned false (init P C) sched in
-    buf (sh c) = [item_a] /\ existsb mid_handoff (prods c) = false /\
-    exists c', cstep pinned c = Some (c', [LConnRead false; LRaise DisconnectedError]) /\
-               outs (sh c') = [Raised DisconnectedError] /\ buf (sh c') = [item_a].
-Proof. exact disconnected_while_buffered_refuted. Qed.
-Print Assumptions C19_disconnected_while_buffered_refuted.
-
-Theorem C19_disconnected_while_buffered_async_refuted :
-  exists P C sched, forallb lifecycle P = true /\
-    let c := run pinned true (init P C) sched in
-    outs (sh c) = [Raised DisconnectedError] /\ buf (sh c) = [item_a] /\
-    last (trace pinned true (init P C) sched) [] = [LWake CE; LConnRead false; LRaise DisconnectedError].
-Proof. exact disconnected_while_buffered_async_refuted. Qed.
-Print Assumptions C19_disconnected_while_buffered_async_refuted.
-
-(* receive() blocked in input_event.wait() is never woken by the final disconnect *)
-Theorem C19_no_hang_refuted :
-  exists P C, forallb lifecycle P = true /\
-    (exists sched, hung (run pinned false (init P C) sched)) /\
-    (exists sched, hung (run pinned true (init P C) sched)).
-Proof. exact no_hang_refuted. Qed.
-Print Assumptions C19_no_hang_refuted.
-
-Theorem C19_quiescent_stuck : forall v atomic c sched,
-  quiescent v c = true -> run v atomic c sched = c.
-Proof. exact quiescent_stuck. Qed.
-Print Assumptions C19_quiescent_stuck.
-
-(* the input wait is the only place where a call can get stuck after the final disconnect *)
-Theorem C19_no_hang_except : forall v P C c, mreach v (init P C) c -> after_final c ->
-  pc c = CDone \/
-  exists n, n <= 7 /\ let c' := run v false c (repeat 0 n) in
-    after_final c' /\ (pc c' = RIW WBlocked \/ call_over c c').
-Proof. exact no_hang_except. Qed.
-Print Assumptions C19_no_hang_except.
-
-Theorem C19_input_wait_after_final : forall v c, after_final c -> pc c = RIW WBlocked ->
-  if cur_timeout c
-  then exists c', tstep v c = Some (c', [LTimeout IE; LRaise TimeoutError]) /\
-                  outs (sh c') = outs (sh c) ++ [Raised TimeoutError]
-  else quiescent v c = true.
-Proof. exact input_wait_after_final. Qed.
-Print Assumptions C19_input_wait_after_final.
+Print Assumptions C19_disconnected_only_after_final.
 
 (* full strength for a source whose __disconnect_final also sets input_event: every pending
    and later call completes *)
@@ -133,7 +117,7 @@ Print Assumptions C19_no_hang_repaired_fair.
 
 (* full strength for a source with the re-test: DisconnectedError, and TimeoutError out of the
    connected wait, only at a step that has just found the buffer empty; the timer raises only
-   out of the input wait (where C19_timeout_only_if_empty applies) *)
+   out of the input wait (where C19_timeout_enabled_only_if_clear applies) *)
 Theorem C19_recheck_raises_only_if_empty : forall v c c' l, recheck_before_raise v = true ->
   cstep v c = Some (c', l) -> recv_pc (pc c) = true ->
   In (LRaise DisconnectedError) l \/ In (LRaise TimeoutError) l ->
@@ -145,3 +129,68 @@ Theorem C19_recheck_timer_raises_only_in_input_wait : forall v c c' l, recheck_b
   tstep v c = Some (c', l) -> In (LRaise TimeoutError) l -> pc c = RIW WBlocked.
 Proof. exact recheck_timer_raises_only_in_input_wait. Qed.
 Print Assumptions C19_recheck_timer_raises_only_in_input_wait.
+
+(* ===================================================================================== *)
+(* DOCUMENTATION ONLY: what the fix commits repaired.  These are statements about the      *)
+(* `pinned` variant (the source BEFORE 748d97f / fee3be8); no part of the check runs the    *)
+(* model with `pinned`.  Witnesses were replayed on the real classes before the fixes.      *)
+(* ===================================================================================== *)
+
+(* before fee3be8: the timeout of connected_event.wait could fire with a completely handed-off
+   event in the buffer (thread granularity) *)
+Theorem C19_timeout_connected_wait_refuted :
+  exists P C sched, forallb lifecycle P = true /\
+    let c := run pinned false (init P C) sched in
+    pc c = RCW WBlocked /\ buf (sh c) = [item_a] /\ existsb mid_handoff (prods c) = false /\
+    exists c', tstep pinned c = Some (c', [LTimeout CE; LRaise TimeoutError]) /\
+               outs (sh c') = [Raised TimeoutError] /\ buf (sh c') = [item_a].
+Proof. exact timeout_connected_wait_refuted. Qed.
+Print Assumptions C19_timeout_connected_wait_refuted.
+
+(* before fee3be8: DisconnectedError while an event received before the end was still buffered *)
+Theorem C19_disconnected_while_buffered_refuted :
+  exists P C sched, forallb lifecycle P = true /\
+    let c := run pinned false (init P C) sched in
+    buf (sh c) = [item_a] /\ existsb mid_handoff (prods c) = false /\
+    exists c', cstep pinned c = Some (c', [LConnRead false; LRaise DisconnectedError]) /\
+               outs (sh c') = [Raised DisconnectedError] /\ buf (sh c') = [item_a].
+Proof. exact disconnected_while_buffered_refuted. Qed.
+Print Assumptions C19_disconnected_while_buffered_refuted.
+
+Theorem C19_disconnected_while_buffered_async_refuted :
+  exists P C sched, forallb lifecycle P = true /\
+    let c := run pinned true (init P C) sched in
+    outs (sh c) = [Raised DisconnectedError] /\ buf (sh c) = [item_a] /\
+    last (trace pinned true (init P C) sched) [] = [LWake CE; LConnRead false; LRaise DisconnectedError].
+Proof. exact disconnected_while_buffered_async_refuted. Qed.
+Print Assumptions C19_disconnected_while_buffered_async_refuted.
+
+(* before 748d97f: receive() blocked in input_event.wait() was never woken by the final disconnect *)
+Theorem C19_no_hang_refuted :
+  exists P C, forallb lifecycle P = true /\
+    (exists sched, hung (run pinned false (init P C) sched)) /\
+    (exists sched, hung (run pinned true (init P C) sched)).
+Proof. exact no_hang_refuted. Qed.
+Print Assumptions C19_no_hang_refuted.
+
+Theorem C19_quiescent_stuck : forall v atomic c sched,
+  quiescent v c = true -> run v atomic c sched = c.
+Proof. exact quiescent_stuck. Qed.
+Print Assumptions C19_quiescent_stuck.
+
+(* (any variant) the input wait is the only place where a call can get stuck after the final
+   disconnect - what made the hang a single-signature finding *)
+Theorem C19_no_hang_except : forall v P C c, mreach v (init P C) c -> after_final c ->
+  pc c = CDone \/
+  exists n, n <= 7 /\ let c' := run v false c (repeat 0 n) in
+    after_final c' /\ (pc c' = RIW WBlocked \/ call_over c c').
+Proof. exact no_hang_except. Qed.
+Print Assumptions C19_no_hang_except.
+
+Theorem C19_input_wait_after_final : forall v c, after_final c -> pc c = RIW WBlocked ->
+  if cur_timeout c
+  then exists c', tstep v c = Some (c', [LTimeout IE; LRaise TimeoutError]) /\
+                  outs (sh c') = outs (sh c) ++ [Raised TimeoutError]
+  else quiescent v c = true.
+Proof. exact input_wait_after_final. Qed.
+Print Assumptions C19_input_wait_after_final.
